@@ -278,7 +278,7 @@ func main() {
 		"golang.org/x/sync/semaphore": vsImport + "/vsemaphore",
 	}
 	defaultName := map[string]string{"sync": "sync", "time": "time", "context": "context", "runtime": "runtime",
-		"golang.org/x/sync/semaphore": "semaphore"}
+		"golang.org/x/sync/semaphore": "semaphore", "sync/atomic": "atomic"}
 	entries, err := os.ReadDir(*pkgDir)
 	if err != nil {
 		fatal(err.Error())
